@@ -132,3 +132,20 @@ pub open spec fn tc_publish(pre: Tree, dest: Seq<char>, buf: Seq<u8>, post: Tree
     &&& (pre.contains_key(dest) ==> post[dest].created == pre[dest].created && post[dest].accessed == pre[dest].accessed)
     &&& (forall|q: Seq<char>| q != dest && pre.contains_key(q) ==> #[trigger] post[q] == pre[q])
 }
+
+// ---------------- PC: what VfsPath adds on top of TC (parent is a directory), without the kind-soundness clauses that only a backend can give
+pub open spec fn pc_create_dir(pre: Tree, p: Seq<char>, r: VfsResult<()>, post: Tree) -> bool {
+    &&& (r is Ok ==> is_dir_at(pre, parent_spec(p)) && !pre.contains_key(p) && post.dom() =~= pre.dom().insert(p)
+            && post[p].is_dir && post[p].bytes.len() == 0
+            && (forall|q: Seq<char>| q != p && pre.contains_key(q) ==> #[trigger] post[q] == pre[q]))
+    &&& (r is Err ==> post =~= pre)
+}
+/// exactness for a backend that does not fail spuriously (TC+): the call succeeds exactly when the tree meets its precondition,
+/// and an occupied target is classified by its occupant (C01, C12)
+pub open spec fn pc_create_dir_exact(pre: Tree, p: Seq<char>, r: VfsResult<()>) -> bool {
+    abs_path(p) && is_dir_at(pre, parent_spec(p)) ==> {
+        &&& (!pre.contains_key(p) ==> r is Ok)
+        &&& (is_file_at(pre, p) ==> r is Err && ekind(r->Err_0) is FileExists)
+        &&& (is_dir_at(pre, p) ==> r is Err && ekind(r->Err_0) is DirectoryExists)
+    }
+}
